@@ -2462,6 +2462,7 @@ class sptensor:
                         newsz.append(max(key_n) + 1)
                     else:
                         newsz.append(max([self.shape[n], max(key_n) + 1]))
+                    m = m + 1
             self.shape = tuple(newsz)
 
             # Expand subs array if there are new modes, i.e., if the order
